@@ -1,9 +1,9 @@
 (* C01 (whole conversion) — facts about Model/ConvConcrete.v:
-   - the only way to the model's own status MODEL_FUEL is the exhaustion of the EMBEDDED-DOCUMENT fuel in the tree
-     builder (the parser never runs out of its fuel, at any level), and a run that does not exhaust it is the run
-     for every larger fuel;
-   - when no character data is recognised as an embedded document (fuel 1 suffices), the size of the XML is bounded
-     by a fixed polynomial of the length of the document and of the indentation parameter. *)
+   - the model's own status MODEL_FUEL is never the result (the parser never runs out of its fuel, at either level;
+     the tree builder has none);
+   - the size of the XML is bounded by a fixed polynomial of the length of the document and of the indentation
+     parameter: degree 2 when no embedded document is opened, degree 4 with the one level of embedded documents that
+     WBXML_MAX_EMBEDDED_DEPTH allows. *)
 From Coq Require Import String Ascii.
 From Coq Require Import List NArith ZArith Lia Bool ZifyBool ZifyN.
 From Wbxml Require Import Model.Codec Model.TablesDefs Model.Parser Model.TreeBuild Model.TreeConv Model.Conv Model.ConvConcrete
@@ -14,61 +14,22 @@ Import ListNotations.
 Local Open Scope N_scope.
 
 (* ---- fuel ---- *)
-Lemma tree_from_wbxml_fuel tbl forced meta ef bs : tree_from_wbxml tbl forced meta ef bs = BFuel ->
-  exists evs, parse_with tbl forced meta (S (length bs)) bs = POk evs /\ build tbl ef evs = BFuel.
-Proof.
-  unfold tree_from_wbxml. pose proof (parse_total tbl forced meta bs) as Ht.
-  destruct (parse_with tbl forced meta (S (length bs)) bs) as [evs|e|]; [|discriminate|congruence].
-  intros H. exists evs. split; [reflexivity|exact H].
-Qed.
-
-Lemma tree_from_wbxml_mono tbl forced meta ef bs r : tree_from_wbxml tbl forced meta ef bs = r -> r <> BFuel ->
-  forall k, tree_from_wbxml tbl forced meta (ef + k) bs = r.
-Proof.
-  unfold tree_from_wbxml. destruct (parse_with tbl forced meta (S (length bs)) bs) as [evs|e|]; [|tauto|tauto].
-  intros H Hr k. exact (build_mono tbl ef evs r H Hr k).
-Qed.
-
 Lemma perr_code_not_fuel e : perr_code e <> MODEL_FUEL.
 Proof. destruct e; discriminate. Qed.
 Lemma xerr_code_not_fuel e : xerr_code e <> MODEL_FUEL.
 Proof. destruct e; discriminate. Qed.
 
-Lemma model_fuel_iff tbl ef o doc :
-  r_status (wbxml2xml_model tbl ef o doc) = ST_ERR MODEL_FUEL <->
-  doc <> [] /\ tree_from_wbxml tbl (wo_lang o) (wo_charset o) ef doc = BFuel.
+Theorem model_never_fuel tbl o doc : r_status (wbxml2xml_model tbl o doc) <> ST_ERR MODEL_FUEL.
 Proof.
-  unfold wbxml2xml_model, conv_run. destruct doc as [|b0 r0]; [cbn; split; [discriminate|intros [H _]; congruence]|].
-  unfold w2x_tree_from_doc.
-  destruct (tree_from_wbxml tbl (wo_lang o) (wo_charset o) ef (b0 :: r0)) as [t|[|e]|].
-  - unfold w2x_encode. destruct (to_xroots tbl t) as [[xl roots]|].
-    + destruct (EncXml.enc_xml _ _ _ _ _) as [out|e]; cbn [r_status].
-      * split; [discriminate|intros [_ H]; discriminate].
-      * split; [intros H; injection H as H; exfalso; exact (xerr_code_not_fuel e H)|intros [_ H]; discriminate].
-    + cbn [r_status]. split; [discriminate|intros [_ H]; discriminate].
-  - cbn [r_status]. split; [discriminate|intros [_ H]; discriminate].
-  - cbn [r_status]. split; [intros H; injection H as H; exfalso; exact (perr_code_not_fuel e H)|intros [_ H]; discriminate].
-  - cbn [r_status]. split; [intros _; split; [discriminate|reflexivity]|reflexivity].
-Qed.
-
-Lemma model_mono tbl ef o doc : r_status (wbxml2xml_model tbl ef o doc) <> ST_ERR MODEL_FUEL ->
-  forall k, wbxml2xml_model tbl (ef + k) o doc = wbxml2xml_model tbl ef o doc.
-Proof.
-  intros H k. assert (Hn : doc = [] \/ tree_from_wbxml tbl (wo_lang o) (wo_charset o) ef doc <> BFuel).
-  { destruct doc as [|b0 r0]; [left; reflexivity|right]. intros Hf. apply H. apply model_fuel_iff. split; [discriminate|exact Hf]. }
-  destruct Hn as [->|Hn]; [reflexivity|].
-  unfold wbxml2xml_model, conv_run, w2x_tree_from_doc.
-  rewrite (tree_from_wbxml_mono tbl _ _ ef doc _ eq_refl Hn k). reflexivity.
-Qed.
-
-(* documents without a <Data> element never need more than fuel 1 *)
-Lemma no_data_no_fuel tbl forced meta ef bs evs :
-  parse_with tbl forced meta (S (length bs)) bs = POk evs -> no_data evs = true ->
-  tree_from_wbxml tbl forced meta (S ef) bs <> BFuel.
-Proof.
-  intros Hp Hn. unfold tree_from_wbxml. rewrite Hp.
-  destruct (build_is_spec tbl forced meta _ bs evs Hp Hn) as (cs & lid & p1 & t & a & inner & p2 & ch & _ & _ & _ & _ & Hb).
-  rewrite (Hb ef). discriminate.
+  unfold wbxml2xml_model, conv_run. destruct doc as [|b0 r0]; [discriminate|].
+  unfold w2x_tree_from_doc, wbxml_tree_from_wbxml.
+  pose proof (tree_from_wbxml_total tbl (wo_lang o) (wo_charset o) MAX_EMBEDDED_DEPTH (b0 :: r0)) as Ht.
+  destruct (tree_from_wbxml tbl (wo_lang o) (wo_charset o) MAX_EMBEDDED_DEPTH (b0 :: r0)) as [t|[|e]|]; [| | |congruence].
+  - unfold w2x_encode. destruct (to_xroots tbl t) as [[xl roots]|]; [|discriminate].
+    destruct (EncXml.enc_xml _ _ _ _ _) as [out|e]; cbn [r_status]; [discriminate|].
+    intros H. injection H as H. exact (xerr_code_not_fuel e H).
+  - discriminate.
+  - cbn [r_status]. intros H. injection H as H. exact (perr_code_not_fuel e H).
 Qed.
 
 (* ---- size ---- *)
@@ -129,50 +90,98 @@ Proof.
     pose proof (IH r l' E). change (list_sum []) with 0%nat. lia.
 Qed.
 
-Lemma ems_bound evs : (ems mE mT mC evs <= 24 * evs_size evs + Cn * cnt evs)%nat.
+Definition Phi (x : nat) : nat := (24 * (x * (2 * x + 2 * Kmax tbl + 122)) + Cn * (2 * x))%nat.
+
+Lemma Phi_mono a b : (a <= b)%nat -> (Phi a <= Phi b)%nat.
+Proof. intros H. unfold Phi. nia. Qed.
+Lemma Phi_add a b : (Phi a + Phi b <= Phi (a + b))%nat.
+Proof. unfold Phi. nia. Qed.
+
+(* level 0: no embedded document is opened *)
+Definition mS0 (b : bytes) : nat := 0%nat.
+(* level 1: an embedded document is a level-0 document parsed from the character data *)
+Definition mS1 (b : bytes) : nat := Phi (length b).
+
+Fixpoint chars_total (l : list event) : nat :=
+  match l with [] => 0 | EvChars b :: r => length b + chars_total r | _ :: r => chars_total r end%nat.
+
+Lemma chars_total_le evs : (chars_total evs <= evs_size evs)%nat.
+Proof. induction evs as [|e r IH]; [cbn; lia|]. destruct e; cbn [chars_total evs_size ev_size]; lia. Qed.
+
+Lemma ems_bound0 evs : (ems mE mT mC mS0 evs <= 24 * evs_size evs + Cn * cnt evs)%nat.
 Proof.
   induction evs as [|e r IH]; [cbn; lia|]. rewrite ems_cons. cbn [evs_size cnt].
-  assert (He : (em mE mT mC e <= 24 * ev_size e + Cn * ecnt e)%nat).
+  assert (He : (em mE mT mC mS0 e <= 24 * ev_size e + Cn * ecnt e)%nat).
   { destruct e as [cs lid|t a|b|tg dt|t|]; cbn [em ev_size ecnt]; try lia.
     - unfold mE, Cn. nia.
-    - unfold mT, mC, Cn. lia. }
+    - unfold mT, mC, mS0, Cn. lia. }
   nia.
+Qed.
+
+Lemma ems_bound1 evs : (ems mE mT mC mS1 evs <= 24 * evs_size evs + Cn * cnt evs + Phi (chars_total evs))%nat.
+Proof.
+  induction evs as [|e r IH]; [cbn; lia|]. rewrite ems_cons. cbn [evs_size cnt].
+  destruct e as [cs lid|t a|b|tg dt|t|]; cbn [em ev_size ecnt chars_total]; try lia.
+  - assert (He : (mE t a <= 24 * (tn_size t + attrs_size a) + Cn * S (length a))%nat) by (unfold mE, Cn; nia). nia.
+  - pose proof (Phi_add (length b) (chars_total r)). assert (HC : (12 <= Cn)%nat) by (unfold Cn; lia).
+    assert (E1 : mT b = (24 * length b)%nat) by reflexivity. assert (E2 : mC = 12%nat) by reflexivity.
+    assert (E3 : mS1 b = Phi (length b)) by reflexivity. rewrite Nat.mul_add_distr_l. lia.
+Qed.
+
+(* what a document parsed and built without embedding measures *)
+Lemma level0_measure forced meta bs evs t :
+  parse_with tbl forced meta (S (length bs)) bs = POk evs -> build tbl 0 evs = BOk t ->
+  (tmr mE mT mC t <= Phi (length bs))%nat.
+Proof.
+  intros Hp Hb. pose proof (build_measure mE mT mC mS0 mT_app tbl 0 evs t I Hb) as Hm.
+  pose proof (ems_bound0 evs) as He. pose proof (parse_growth _ _ _ _ _ _ Hp) as Hg. pose proof (parse_count _ _ _ _ _ _ Hp) as Hc.
+  assert (Hmul : (Cn * cnt evs <= Cn * (2 * length bs))%nat) by (apply Nat.mul_le_mono_l; exact Hc).
+  unfold Phi. lia.
+Qed.
+
+Lemma sub_ok1 : sub_ok mE mT mC mS1 tbl 1.
+Proof. intros cs ch evs' t' Hp Hb. exact (level0_measure 0 cs ch evs' t' Hp Hb). Qed.
+
+Lemma level1_measure forced meta bs evs t :
+  parse_with tbl forced meta (S (length bs)) bs = POk evs -> build tbl 1 evs = BOk t ->
+  (tmr mE mT mC t <= Phi (length bs) + Phi (length bs * (2 * length bs + 2 * Kmax tbl + 122)))%nat.
+Proof.
+  intros Hp Hb. pose proof (build_measure mE mT mC mS1 mT_app tbl 1 evs t sub_ok1 Hb) as Hm.
+  pose proof (ems_bound1 evs) as He. pose proof (parse_growth _ _ _ _ _ _ Hp) as Hg. pose proof (parse_count _ _ _ _ _ _ Hp) as Hc.
+  assert (Hmul : (Cn * cnt evs <= Cn * (2 * length bs))%nat) by (apply Nat.mul_le_mono_l; exact Hc).
+  pose proof (Phi_mono _ _ (Nat.le_trans _ _ _ (chars_total_le evs) Hg)) as Hphi.
+  unfold Phi at 1. lia.
 Qed.
 End Size.
 
+Definition size_bound (tbl : list lang) (indent : N) (n : nat) : nat :=
+  let D := (255 * (N.to_nat (u8 indent) + 1))%nat in
+  (Khdr tbl + Phi tbl D n + Phi tbl D (n * (2 * n + 2 * Kmax tbl + 122)))%nat.
+
 Theorem conv_size tbl o doc t out :
-  tree_from_wbxml tbl (wo_lang o) (wo_charset o) 1 doc = BOk t -> w2x_encode tbl o t = inl out ->
-  (length out <= Khdr tbl + 24 * (length doc * (2 * length doc + 2 * Kmax tbl + 122))
-                 + (2 * (255 * (N.to_nat (u8 (wo_indent o)) + 1)) + 2 * Kmax tbl + KnsT tbl + 12) * (2 * length doc))%nat.
+  wbxml_tree_from_wbxml tbl (wo_lang o) (wo_charset o) doc = BOk t -> w2x_encode tbl o t = inl out ->
+  (length out <= size_bound tbl (wo_indent o) (length doc))%nat.
 Proof.
-  unfold tree_from_wbxml. destruct (parse_with tbl (wo_lang o) (wo_charset o) (S (length doc)) doc) as [evs|e|] eqn:Ep; try discriminate.
+  unfold wbxml_tree_from_wbxml, tree_from_wbxml, MAX_EMBEDDED_DEPTH.
+  destruct (parse_with tbl (wo_lang o) (wo_charset o) (S (length doc)) doc) as [evs|e|] eqn:Ep; try discriminate.
   intros Hb. unfold w2x_encode, to_xroots. destruct (find_lang tbl (wt_lang t)) as [l|] eqn:El; [|discriminate].
   destruct (EncXml.enc_xml _ _ _ _ _) as [out'|e] eqn:Ee; [|discriminate]. intros H. injection H as <-.
-  apply enc_xml_cost in Ee. set (D := (255 * (N.to_nat (u8 (wo_indent o)) + 1))%nat) in *.
+  apply enc_xml_cost in Ee. unfold size_bound. set (D := (255 * (N.to_nat (u8 (wo_indent o)) + 1))%nat) in *.
   pose proof (find_lang_In tbl _ _ El) as Hl.
-  pose proof (build_measure (mE tbl D) mT mC mT_app tbl evs t Hb) as Hm.
-  pose proof (ems_bound tbl D evs) as He. pose proof (parse_growth _ _ _ _ _ _ Ep) as Hg. pose proof (parse_count _ _ _ _ _ _ Ep) as Hc.
+  pose proof (level1_measure tbl D _ _ _ _ _ Ep Hb) as Hm.
   assert (Hh : (hdr_len (EncXml.xlang_of l) <= Khdr tbl)%nat) by (unfold Khdr; apply maxl_In; apply (in_map (fun l => hdr_len (EncXml.xlang_of l)) _ l Hl)).
   assert (Hr : (list_sum (map (xc D (EncXml.xlang_of l)) match wt_root t with Some r => [to_xnode tbl l r] | None => [] end)
-                <= match wt_root t with Some n => tm (mE tbl D) mT mC n | None => 0 end)%nat).
-  { destruct (wt_root t) as [r|]; cbn [map]; rewrite ?ConvCostXml.list_sum_cons; [|cbn; lia].
+                <= tmr (mE tbl D) mT mC t)%nat).
+  { unfold tmr. destruct (wt_root t) as [r|]; cbn [map]; rewrite ?ConvCostXml.list_sum_cons; [|cbn; lia].
     pose proof (to_xnode_cost tbl D r l Hl). change (list_sum []) with 0%nat. lia. }
-  unfold Cn in He.
-  assert (Hmul : (Cn tbl D * cnt evs <= Cn tbl D * (2 * length doc))%nat) by (apply Nat.mul_le_mono_l; exact Hc).
-  unfold Cn in Hmul. lia.
+  cbv zeta. lia.
 Qed.
 
-(* the same for the model's result, at every fuel, as soon as fuel 1 is not exhausted *)
-Definition size_bound (tbl : list lang) (indent : N) (n : nat) : nat :=
-  (Khdr tbl + 24 * (n * (2 * n + 2 * Kmax tbl + 122))
-   + (2 * (255 * (N.to_nat (u8 indent) + 1)) + 2 * Kmax tbl + KnsT tbl + 12) * (2 * n))%nat.
-
-Theorem model_size tbl o doc k : r_status (wbxml2xml_model tbl 1 o doc) <> ST_ERR MODEL_FUEL ->
-  (N.to_nat (r_len (wbxml2xml_model tbl (1 + k) o doc)) <= size_bound tbl (wo_indent o) (length doc))%nat.
+Theorem model_size tbl o doc :
+  (N.to_nat (r_len (wbxml2xml_model tbl o doc)) <= size_bound tbl (wo_indent o) (length doc))%nat.
 Proof.
-  intros H. rewrite (model_mono tbl 1 o doc H k). clear H.
   unfold wbxml2xml_model, conv_run. destruct doc as [|b0 r0]; [cbn [r_len]; lia|]. unfold w2x_tree_from_doc.
-  destruct (tree_from_wbxml tbl (wo_lang o) (wo_charset o) 1 (b0 :: r0)) as [t|[|e]|] eqn:Et; try (cbn [r_len]; lia).
+  destruct (wbxml_tree_from_wbxml tbl (wo_lang o) (wo_charset o) (b0 :: r0)) as [t|[|e]|] eqn:Et; try (cbn [r_len]; lia).
   destruct (w2x_encode tbl o t) as [out|e] eqn:Ee; [|cbn [r_len]; lia].
   cbn [r_len]. rewrite Nat2N.id. exact (conv_size tbl o (b0 :: r0) t out Et Ee).
 Qed.
